@@ -34,7 +34,7 @@ def spec(th, seed):
     units.append(U('C02_alias.simd-aligned', 'mon/alias.cpp', 'plain', defs=['-DALIAS_PROP=2'] + ['-DGLM_FORCE_INTRINSICS', '-DGLM_FORCE_DEFAULT_ALIGNED_GENTYPES', '-mavx2', '-mfma']))
     if th:
         units.append(U('C02_alias.clang', 'mon/alias.cpp', 'clang', defs=['-DALIAS_PROP=2']))
-        units.append(U('C02_alias.simd-sse2.O0', 'mon/alias.cpp', 'plainO0', defs=['-DALIAS_PROP=2', '-DGLM_FORCE_INTRINSICS', '-DGLM_FORCE_DEFAULT_ALIGNED_GENTYPES', '-msse2'], scale=0.2))
+        units.append(U('C02_alias.simd-sse41.O0', 'mon/alias.cpp', 'plainO0', defs=['-DALIAS_PROP=2', '-DGLM_FORCE_INTRINSICS', '-DGLM_FORCE_DEFAULT_ALIGNED_GENTYPES', '-msse4.1'], scale=0.2))
     return {
         'units': units,
         'parallel_units': 4,
